@@ -568,6 +568,17 @@ Definition plain_definer (t : list cls) (p : pairkind) (b : nat) : bool :=
   | None => false
   end.
 
+(* the classes `_get_comp_cls_attr` walks past before it stops at the class it picks (the first component class
+   defining either member); the whole MRO when it picks none *)
+Fixpoint walked (t : list cls) (p : pairkind) (m : list nat) : list nat :=
+  match m with
+  | [] => []
+  | b :: r => match nth_error t b with
+              | Some c => if c_comp c && negb (pair_empty (get_pair p c)) then [] else b :: walked t p r
+              | None => b :: walked t p r
+              end
+  end.
+
 (* ---------- correspondence on the raw forms ---------- *)
 Definition check_raw (cs : list (cls * option rawmedia) * list access * list N * outcome) : bool :=
   let '(rt, h, keys, out) := cs in
